@@ -3,7 +3,8 @@
    accept, unquoted identifiers, lists with or without a trailing comma at any nesting, dictionaries, argument lists
    with or without a trailing comma.  (C10: what is delivered does not depend on these choices.) *)
 From Coq Require Import NArith ZArith List Bool Lia.
-From MP Require Import Model.Lexer Gen.GenGrammar Model.Parser Model.Serial Proofs.SerialProofs Proofs.LrComplete.
+From MP Require Import Model.Lexer Gen.GenGrammar Model.Parser Model.Serial Proofs.SerialProofs.
+From MP Require Import Proofs.LrComplete.
 Import ListNotations.
 Close Scope N_scope.
 
@@ -11,7 +12,7 @@ Inductive xleaf := XS (lx : text) | XI (lx : text) | XF (lx : text) | XW (lx : t
 Definition lk (a : xleaf) : kl := match a with XS l => (KSTRING, l) | XI l => (KINT, l) | XF l => (KFLOAT, l) | XW l => (KID, l) end.
 Inductive xval := XLeaf (a : xleaf) | XList (l : list xval) (trail : bool).
 Inductive xarg := XAVal (v : xval) | XADict (first : text * xleaf) (more : list (text * xleaf)) (trail : bool).   (* keys: STRING lexemes *)
-Record xcmd := { xc_result : text; xc_name : text; xc_args : list (text * xarg); xc_trail : bool }.
+Record xcmd := { xc_result : option text; xc_name : text; xc_args : list (text * xarg); xc_trail : bool }.   (* no result name: the EEMS 2.0 form *)
 
 (* tokens *)
 Definition tkj (trail : bool) (ls : list (list kl)) : list kl :=
@@ -30,8 +31,11 @@ Definition tkx_arg (a : text * xarg) : list kl :=
   end.
 Definition lpt : kl := (KLPAREN, [40%N]).
 Definition rpt : kl := (KRPAREN, [41%N]).
-Definition tkx_cmd (c : xcmd) : list kl :=
-  (KID, xc_result c) :: eqt :: (KID, xc_name c) :: lpt :: tkj (xc_trail c) (map tkx_arg (xc_args c)) ++ [rpt].
+Definition tkx_head (c : xcmd) : list kl :=
+  match xc_result c with Some r => [(KID, r); eqt; (KID, xc_name c); lpt] | None => [(KID, xc_name c); lpt] end.
+Definition tkx_cmd (c : xcmd) : list kl := tkx_head c ++ tkj (xc_trail c) (map tkx_arg (xc_args c)) ++ [rpt].
+Definition is2 (c : xcmd) : bool := match xc_result c with None => true | Some _ => false end.
+Definition xversion (p : list xcmd) : N := if existsb is2 p then 2%N else 3%N.
 Definition tkx_program (p : list xcmd) : list kl := flat_map tkx_cmd p.
 
 (* what is denoted (lines erased): a quoted string denotes its decoded content *)
@@ -56,7 +60,7 @@ Variable fs : text -> option text.
 Notation deco := (deco L P).
 Notation mk := (mk L P).
 Ltac lr := cbn [run step defaulted hd_error tl LrComplete.mk fst snd t_kind term_of action reduce production firstn skipn length map rev app
-                Nat.ltb Nat.leb goto Nat.add LrComplete.deco tkx_value tk_join tkj ge gl gp ga gc Nat.eqb lk].
+                Nat.ltb Nat.leb goto Nat.add LrComplete.deco tkx_value tk_join tkj ge gl gp ga gc sh gt S_res S_eq S_name S_lp S_an S_val S_lb S_el S_ec S_arg S_ac S_cmd S_tp S_pc Nat.eqb lk].
 Ltac ev := cbn [eval bind first_line leaf_text LrComplete.mk t_kind t_lexeme t_line fst snd lk].
 Ltac ctx_cases H := destruct H as [[-> [H|H]]|[[->| ->] [H|H]]].
 
@@ -79,7 +83,7 @@ Qed.
 
 (* the elements of a non-empty list, with or without a trailing comma, followed by `]` *)
 Lemma xelems_ok : forall l tr, l <> [] -> Forall xvalue_spec l -> forallb xval_ok l = true ->
-  forall s i T0 st rb rest, s = 29%nat \/ s = 50%nat -> t_kind rb = KRBRACK ->
+  forall s i T0 st rb rest, s = S_lb \/ s = S_ec -> t_kind rb = KRBRACK ->
   exists n T es, (n <= 10 * length (tkj tr (map tkx_value l)))%nat /\
     reaches ((s, T0) :: st) (deco i (tkj tr (map tkx_value l)) ++ rb :: rest) ((gl s, T) :: (s, T0) :: st) (rb :: rest) n /\
     eval fs T = SOk (SElems es) /\ map erase_e es = map (fun x => PE (xden x) 0%N) l.
@@ -105,8 +109,8 @@ Proof. induction l as [|v l IH]; [congruence|]. intros tr _ HF W s i T0 st rb re
     rewrite deco_app. cbn [LrComplete.deco]. rewrite <- app_assoc. cbn [app].
     set (c := mk (length (tkx_value v) + i) comma).
     destruct (Hv W1 s i T0 st c (deco (S (length (tkx_value v) + i)) tj ++ rb :: rest)) as (n & T & e & Hn & Hr & He & Hp); [right; split; [exact Hs | left; reflexivity]|].
-    destruct (IH tr ltac:(discriminate) HF' W2 50%nat (S (length (tkx_value v) + i)) (Leaf c)
-                 ((41%nat, Br F_p_element_expression [T]) :: (s, T0) :: st) rb rest (or_intror eq_refl) Hrb)
+    destruct (IH tr ltac:(discriminate) HF' W2 S_ec (S (length (tkx_value v) + i)) (Leaf c)
+                 ((S_el, Br F_p_element_expression [T]) :: (s, T0) :: st) rb rest (or_intror eq_refl) Hrb)
       as (n2 & T2 & es & Hn2 & Hr2 & He2 & Hp2).
     exists (n + 2 + n2 + 1)%nat, (Br F_p_elements [Br F_p_element_expression [T]; Leaf c; T2]), (e :: es). split; [|split; [|split]].
     + rewrite app_length. cbn [length]. fold tj in Hn2. lia.
@@ -125,7 +129,7 @@ Proof. intros HF W s i T0 st la rest H. cbn [xval_ok] in W. destruct l as [|v l'
     change (tkx_value (XList l tr)) with (lbt :: tj ++ [rbt]).
     cbn [LrComplete.deco]. rewrite deco_app. cbn [LrComplete.deco app]. rewrite <- app_assoc. cbn [app].
     set (rb := mk (length tj + S i) rbt). set (lb := mk i lbt).
-    destruct (xelems_ok l tr ltac:(discriminate) HF W 29%nat (S i) (Leaf lb) ((s, T0) :: st) rb (la :: rest) (or_introl eq_refl) eq_refl)
+    destruct (xelems_ok l tr ltac:(discriminate) HF W S_lb (S i) (Leaf lb) ((s, T0) :: st) rb (la :: rest) (or_introl eq_refl) eq_refl)
       as (n & T & es & Hn & Hr & He & Hp).
     exists (1 + n + 3)%nat, (Br F_p_expression [Br F_p_list [Leaf lb; T; Leaf rb]]), (PE (PList es) (L i)). split; [|split; [|split]].
     + cbn [length]. rewrite app_length. cbn [length]. fold tj in Hn. lia.
@@ -146,9 +150,9 @@ Fixpoint xdexp (kv : list (text * xleaf)) : list (text * pexpr) :=
   | [] => []
   | p :: t => match t with [] => [pden p] | _ => dict_set (xdexp t) (fst (pden p)) (snd (pden p)) end
   end.
-Lemma xpair_ok p : pair_ok p = true -> forall s i T0 st la rest, s = 29%nat \/ s = 51%nat -> t_kind la = KCOMMA \/ t_kind la = KRBRACK ->
+Lemma xpair_ok p : pair_ok p = true -> forall s i T0 st la rest, s = S_lb \/ s = S_pc -> t_kind la = KCOMMA \/ t_kind la = KRBRACK ->
   exists n T e, (n <= 9)%nat /\
-    reaches ((s, T0) :: st) (deco i (tkx_pair p) ++ la :: rest) ((44%nat, T) :: (s, T0) :: st) (la :: rest) n /\
+    reaches ((s, T0) :: st) (deco i (tkx_pair p) ++ la :: rest) ((S_tp, T) :: (s, T0) :: st) (la :: rest) n /\
     eval fs T = SOk (SPair (fst (pden p)) e) /\ erase_e e = snd (pden p).
 Proof. unfold pair_ok, pden. destruct p as [key val]. cbn [fst snd]. unfold sden at 1 2. destruct (string_value key) as [ks| |] eqn:EK; try discriminate.
   intros W s i T0 st la rest Hs H. unfold tkx_pair, colon. cbn [fst snd].
@@ -164,7 +168,7 @@ Proof. unfold pair_ok, pden. destruct p as [key val]. cbn [fst snd]. unfold sden
     (eexists; eexists; split; [lia | split; [intros f; repeat (progress (lr; rewrite ?H)); reflexivity | split; [ev; rewrite EK; ev; reflexivity | reflexivity]]]).
 Qed.
 Lemma xpairs_ok : forall kv tr, kv <> [] -> forallb pair_ok kv = true ->
-  forall s i T0 st rb rest, s = 29%nat \/ s = 51%nat -> t_kind rb = KRBRACK ->
+  forall s i T0 st rb rest, s = S_lb \/ s = S_pc -> t_kind rb = KRBRACK ->
   exists n T d, (n <= 10 * length (tkj tr (map tkx_pair kv)))%nat /\
     reaches ((s, T0) :: st) (deco i (tkj tr (map tkx_pair kv)) ++ rb :: rest) ((gp s, T) :: (s, T0) :: st) (rb :: rest) n /\
     eval fs T = SOk (SDict d) /\ map er d = xdexp kv.
@@ -188,7 +192,7 @@ Proof. induction kv as [|p kv IH]; [congruence|]. intros tr _ W s i T0 st rb res
     rewrite deco_app. change (length (tkx_pair p)) with 3%nat. cbn [LrComplete.deco]. rewrite <- app_assoc. cbn [app].
     set (c := mk (3 + i) comma).
     destruct (xpair_ok p W1 s i T0 st c (deco (S (3 + i)) tj ++ rb :: rest) Hs (or_introl eq_refl)) as (n & T & e & Hn & Hr & He & Hp).
-    destruct (IH tr ltac:(discriminate) W2 51%nat (S (3 + i)) (Leaf c) ((44%nat, T) :: (s, T0) :: st) rb rest (or_intror eq_refl) Hrb)
+    destruct (IH tr ltac:(discriminate) W2 S_pc (S (3 + i)) (Leaf c) ((S_tp, T) :: (s, T0) :: st) rb rest (or_intror eq_refl) Hrb)
       as (n2 & T2 & d & Hn2 & Hr2 & He2 & Hp2).
     exists (n + 1 + n2 + 1)%nat, (Br F_p_tuple_pairs [T; Leaf c; T2]), (dict_set d (fst (pden p)) e). split; [|split; [|split]].
     + rewrite app_length. change (length (tkx_pair p)) with 3%nat. cbn [length]. fold tj in Hn2. lia.
@@ -205,15 +209,15 @@ Definition xaexp (a : xarg) : pval := match a with XAVal v => xden v | XADict p 
 Definition xarg_matches (x : text * xarg) (a : parg) : Prop := pa_name a = fst x /\ erase_e (pa_value a) = PE (xaexp (snd x)) 0%N.
 Lemma xargval_ok (a : xarg) : xarg_ok a = true -> forall i T0 st la rest, actx la ->
   exists n T e, (n + 4 <= 10 * length (tl (tl (tkx_arg (nil, a)))))%nat /\
-    reaches ((17%nat, T0) :: st) (deco i (tl (tl (tkx_arg (nil, a)))) ++ la :: rest) ((20%nat, T) :: (17%nat, T0) :: st) (la :: rest) n /\
+    reaches ((S_val, T0) :: st) (deco i (tl (tl (tkx_arg (nil, a)))) ++ la :: rest) (((ge S_val), T) :: (S_val, T0) :: st) (la :: rest) n /\
     eval fs T = SOk (SExpr e) /\ erase_e e = PE (xaexp a) 0%N.
 Proof. intros W i T0 st la rest H. destruct a as [v|p ps tr]; cbn [tkx_arg tl snd xarg_ok] in *.
-  - destruct (xvalue_ok v W 17%nat i T0 st la rest) as (n & T & e & A & B & C & D); [left; split; [reflexivity | exact H]|].
+  - destruct (xvalue_ok v W S_val i T0 st la rest) as (n & T & e & A & B & C & D); [left; split; [reflexivity | exact H]|].
     exists n, T, e. auto.
   - set (kv := p :: ps) in *. set (tj := tkj tr (map tkx_pair kv)).
     cbn [LrComplete.deco]. rewrite deco_app. cbn [LrComplete.deco app]. rewrite <- app_assoc. cbn [app].
     set (rb := mk (length tj + S i) rbt). set (lb := mk i lbt).
-    destruct (xpairs_ok kv tr ltac:(discriminate) W 29%nat (S i) (Leaf lb) ((17%nat, T0) :: st) rb (la :: rest) (or_introl eq_refl) eq_refl)
+    destruct (xpairs_ok kv tr ltac:(discriminate) W S_lb (S i) (Leaf lb) ((S_val, T0) :: st) rb (la :: rest) (or_introl eq_refl) eq_refl)
       as (n & T & d & Hn & Hr & He & Hp).
     exists (1 + n + 4)%nat, (Br F_p_expression [Br F_p_list [Leaf lb; Br F_p_elements_tuple_pairs [T]; Leaf rb]]), (PE (PDict d) (L i)).
     split; [|split; [|split]].
@@ -226,13 +230,13 @@ Proof. intros W i T0 st la rest H. destruct a as [v|p ps tr]; cbn [tkx_arg tl sn
 Qed.
 Lemma tkx_arg_split x : tkx_arg x = (KID, fst x) :: eqt :: tl (tl (tkx_arg (nil, snd x))).
 Proof. destruct x as [nm a]. reflexivity. Qed.
-Lemma xarg_ok_ x : xarg_ok (snd x) = true -> forall s i T0 st la rest, s = 8%nat \/ s = 16%nat -> actx la ->
+Lemma xarg_ok_ x : xarg_ok (snd x) = true -> forall s i T0 st la rest, s = S_lp \/ s = S_ac -> actx la ->
   exists n T a, (n + 4 <= 10 * length (tkx_arg x))%nat /\
-    reaches ((s, T0) :: st) (deco i (tkx_arg x) ++ la :: rest) ((12%nat, T) :: (s, T0) :: st) (la :: rest) n /\
+    reaches ((s, T0) :: st) (deco i (tkx_arg x) ++ la :: rest) ((S_arg, T) :: (s, T0) :: st) (la :: rest) n /\
     eval fs T = SOk (SArg a) /\ xarg_matches x a.
 Proof. intros W s i T0 st la rest Hs H. rewrite tkx_arg_split. cbn [LrComplete.deco app].
   set (nm := mk i (KID, fst x)). set (eqk := mk (S i) eqt).
-  destruct (xargval_ok (snd x) W (S (S i)) (Leaf eqk) ((13%nat, Leaf nm) :: (s, T0) :: st) la rest H) as (n & T & e & Hn & Hr & He & Hp).
+  destruct (xargval_ok (snd x) W (S (S i)) (Leaf eqk) ((S_an, Leaf nm) :: (s, T0) :: st) la rest H) as (n & T & e & Hn & Hr & He & Hp).
   exists (2 + n + 1)%nat, (Br F_p_argument [Leaf nm; Leaf eqk; T]), {| pa_name := fst x; pa_value := e; pa_line := L i |}.
   split; [|split; [|split]].
   - cbn [length]. lia.
@@ -242,7 +246,7 @@ Proof. intros W s i T0 st la rest Hs H. rewrite tkx_arg_split. cbn [LrComplete.d
   - unfold nm. ev. rewrite He. reflexivity.
   - split; [reflexivity | exact Hp].
 Qed.
-Lemma xargs_ok : forall l tr, l <> [] -> forallb (fun x => xarg_ok (snd x)) l = true -> forall s i T0 st rp rest, s = 8%nat \/ s = 16%nat -> t_kind rp = KRPAREN ->
+Lemma xargs_ok : forall l tr, l <> [] -> forallb (fun x => xarg_ok (snd x)) l = true -> forall s i T0 st rp rest, s = S_lp \/ s = S_ac -> t_kind rp = KRPAREN ->
   exists n T al, (n <= 10 * length (tkj tr (map tkx_arg l)))%nat /\
     reaches ((s, T0) :: st) (deco i (tkj tr (map tkx_arg l)) ++ rp :: rest) ((ga s, T) :: (s, T0) :: st) (rp :: rest) n /\
     eval fs T = SOk (SArgs al) /\ Forall2 xarg_matches l al.
@@ -266,7 +270,7 @@ Proof. induction l as [|x l IH]; [congruence|]. intros tr _ W s i T0 st rp rest 
     rewrite deco_app. cbn [LrComplete.deco]. rewrite <- app_assoc. cbn [app].
     set (c := mk (length (tkx_arg x) + i) comma).
     destruct (xarg_ok_ x W1 s i T0 st c (deco (S (length (tkx_arg x) + i)) tj ++ rp :: rest) Hs (or_introl eq_refl)) as (n & T & a & Hn & Hr & He & Hm).
-    destruct (IH tr ltac:(discriminate) W2 16%nat (S (length (tkx_arg x) + i)) (Leaf c) ((12%nat, T) :: (s, T0) :: st) rp rest (or_intror eq_refl) Hrp)
+    destruct (IH tr ltac:(discriminate) W2 S_ac (S (length (tkx_arg x) + i)) (Leaf c) ((S_arg, T) :: (s, T0) :: st) rp rest (or_intror eq_refl) Hrp)
       as (n2 & T2 & al & Hn2 & Hr2 & He2 & Hm2).
     exists (n + 1 + n2 + 1)%nat, (Br F_p_argument_list [T; Leaf c; T2]), (a :: al). split; [|split; [|split]].
     + rewrite app_length. cbn [length]. fold tj in Hn2. lia.
@@ -280,54 +284,84 @@ Qed.
 (* ---- commands and programs ---- *)
 Definition xcmd_ok (c : xcmd) : bool := forallb (fun x => xarg_ok (snd x)) (xc_args c).
 Definition xcmd_matches (c : xcmd) (x : pcmd) : Prop :=
-  pc_result x = Some (xc_result c) /\ pc_cmd x = xc_name c /\ Forall2 xarg_matches (xc_args c) (pc_args x).
-Lemma xcommand_ok c : xcmd_ok c = true -> forall s i T0 st rest, s = 0%nat \/ s = 3%nat -> cfollow rest ->
+  pc_result x = xc_result c /\ pc_cmd x = xc_name c /\ Forall2 xarg_matches (xc_args c) (pc_args x).
+Lemma xcommand_ok c : xcmd_ok c = true -> forall s i T0 st rest, s = 0%nat \/ s = S_cmd -> cfollow rest ->
   exists n T x, (n + 4 <= 10 * length (tkx_cmd c))%nat /\
-    reaches ((s, T0) :: st) (deco i (tkx_cmd c) ++ rest) ((3%nat, T) :: (s, T0) :: st) rest n /\
-    eval fs T = SOk (SCmd x false) /\ xcmd_matches c x.
-Proof. intros W s i T0 st rest Hs Hf. unfold tkx_cmd, xcmd_ok in *. cbn [LrComplete.deco app].
-  set (r := mk i (KID, xc_result c)). set (e := mk (S i) eqt). set (nm := mk (S (S i)) (KID, xc_name c)).
-  set (lp := mk (S (S (S i))) lpt).
-  destruct (xc_args c) as [|x l'] eqn:EA.
-  - unfold tkj. cbn [map tk_join app LrComplete.deco]. set (rp := mk (S (S (S (S i)))) rpt).
-    exists 7%nat, (Br F_p_command [Leaf r; Leaf e; Leaf nm; Br F_p_argument_empty [Leaf lp; Leaf rp]]),
-      {| pc_result := Some (xc_result c); pc_cmd := xc_name c; pc_args := []; pc_line := L i |}.
-    split; [cbn; lia|]. split; [|split].
-    + intros f. unfold r, e, nm, lp, rp, eqt, lpt, rpt.
-      destruct Hs as [-> | ->]; (destruct Hf as [-> | (la & r' & -> & Hla)]; repeat (progress (lr; rewrite ?Hla)); reflexivity).
-    + reflexivity.
-    + unfold xcmd_matches. cbn [pc_result pc_cmd pc_args]. rewrite EA. repeat split. constructor.
-  - set (l := x :: l') in *. set (tj := tkj (xc_trail c) (map tkx_arg l)).
-    rewrite deco_app. cbn [LrComplete.deco]. rewrite <- app_assoc. cbn [app].
-    set (rp := mk (length tj + S (S (S (S i)))) rpt).
-    destruct (xargs_ok l (xc_trail c) ltac:(discriminate) W 8%nat (S (S (S (S i)))) (Leaf lp) ((9%nat, Leaf nm) :: (6%nat, Leaf e) :: (4%nat, Leaf r) :: (s, T0) :: st)
-                rp rest (or_introl eq_refl) eq_refl) as (n & T & al & Hn & Hr & He & Hm).
-    exists (4 + n + 3)%nat, (Br F_p_command [Leaf r; Leaf e; Leaf nm; Br F_p_arguments [Leaf lp; T; Leaf rp]]),
-      {| pc_result := Some (xc_result c); pc_cmd := xc_name c; pc_args := al; pc_line := L i |}.
-    split; [|split; [|split]].
-    + cbn [length]. rewrite app_length. cbn [length]. fold tj in Hn. lia.
-    + eapply reaches_trans; [eapply reaches_trans; [|exact Hr]|].
-      * intros f. unfold r, e, nm, lp, eqt, lpt. destruct Hs as [-> | ->]; repeat (progress lr); reflexivity.
-      * intros f. unfold rp, rpt. cbn [ga Nat.eqb].
+    reaches ((s, T0) :: st) (deco i (tkx_cmd c) ++ rest) ((S_cmd, T) :: (s, T0) :: st) rest n /\
+    eval fs T = SOk (SCmd x (is2 c)) /\ xcmd_matches c x.
+Proof. intros W s i T0 st rest Hs Hf. unfold tkx_cmd, tkx_head, xcmd_ok, is2, xcmd_matches in *. destruct (xc_result c) as [res|].
+  - (* Result = Command(...) *)
+    cbn [LrComplete.deco app].
+    set (r := mk i (KID, res)). set (e := mk (S i) eqt). set (nm := mk (S (S i)) (KID, xc_name c)). set (lp := mk (S (S (S i))) lpt).
+    destruct (xc_args c) as [|x l'] eqn:EA.
+    + unfold tkj. cbn [map tk_join app LrComplete.deco]. set (rp := mk (S (S (S (S i)))) rpt).
+      exists 7%nat, (Br F_p_command [Leaf r; Leaf e; Leaf nm; Br F_p_argument_empty [Leaf lp; Leaf rp]]),
+        {| pc_result := Some res; pc_cmd := xc_name c; pc_args := []; pc_line := L i |}.
+      split; [cbn; lia|]. split; [|split].
+      * intros f. unfold r, e, nm, lp, rp, eqt, lpt, rpt.
         destruct Hs as [-> | ->]; (destruct Hf as [-> | (la & r' & -> & Hla)]; repeat (progress (lr; rewrite ?Hla)); reflexivity).
-    + unfold r, nm. ev. rewrite He. reflexivity.
-    + unfold xcmd_matches. cbn [pc_result pc_cmd pc_args]. rewrite EA. repeat split. exact Hm.
+      * reflexivity.
+      * cbn [pc_result pc_cmd pc_args]. repeat split. constructor.
+    + set (l := x :: l') in *. set (tj := tkj (xc_trail c) (map tkx_arg l)).
+      rewrite deco_app. cbn [LrComplete.deco]. rewrite <- app_assoc. cbn [app].
+      set (rp := mk (length tj + S (S (S (S i)))) rpt).
+      destruct (xargs_ok l (xc_trail c) ltac:(discriminate) W S_lp (S (S (S (S i)))) (Leaf lp) ((S_name, Leaf nm) :: (S_eq, Leaf e) :: (S_res, Leaf r) :: (s, T0) :: st)
+                  rp rest (or_introl eq_refl) eq_refl) as (n & T & al & Hn & Hr & He & Hm).
+      exists (4 + n + 3)%nat, (Br F_p_command [Leaf r; Leaf e; Leaf nm; Br F_p_arguments [Leaf lp; T; Leaf rp]]),
+        {| pc_result := Some res; pc_cmd := xc_name c; pc_args := al; pc_line := L i |}.
+      split; [|split; [|split]].
+      * cbn [length]. rewrite app_length. cbn [length]. fold tj in Hn. lia.
+      * eapply reaches_trans; [eapply reaches_trans; [|exact Hr]|].
+        -- intros f. unfold r, e, nm, lp, eqt, lpt. destruct Hs as [-> | ->]; repeat (progress lr); reflexivity.
+        -- intros f. unfold rp, rpt. cbn [ga Nat.eqb].
+           destruct Hs as [-> | ->]; (destruct Hf as [-> | (la & r' & -> & Hla)]; repeat (progress (lr; rewrite ?Hla)); reflexivity).
+      * unfold r, nm. ev. rewrite He. reflexivity.
+      * cbn [pc_result pc_cmd pc_args]. repeat split. exact Hm.
+  - (* COMMAND(...): the EEMS 2.0 form *)
+    cbn [LrComplete.deco app].
+    set (nm := mk i (KID, xc_name c)). set (lp := mk (S i) lpt).
+    destruct (xc_args c) as [|x l'] eqn:EA.
+    + unfold tkj. cbn [map tk_join app LrComplete.deco]. set (rp := mk (S (S i)) rpt).
+      exists 5%nat, (Br F_p_eems2_command [Leaf nm; Br F_p_argument_empty [Leaf lp; Leaf rp]]),
+        {| pc_result := None; pc_cmd := xc_name c; pc_args := []; pc_line := L i |}.
+      split; [cbn; lia|]. split; [|split].
+      * intros f. unfold nm, lp, rp, lpt, rpt.
+        destruct Hs as [-> | ->]; (destruct Hf as [-> | (la & r' & -> & Hla)]; repeat (progress (lr; rewrite ?Hla)); reflexivity).
+      * reflexivity.
+      * cbn [pc_result pc_cmd pc_args]. repeat split. constructor.
+    + set (l := x :: l') in *. set (tj := tkj (xc_trail c) (map tkx_arg l)).
+      rewrite deco_app. cbn [LrComplete.deco]. rewrite <- app_assoc. cbn [app].
+      set (rp := mk (length tj + S (S i)) rpt).
+      destruct (xargs_ok l (xc_trail c) ltac:(discriminate) W S_lp (S (S i)) (Leaf lp) ((S_res, Leaf nm) :: (s, T0) :: st)
+                  rp rest (or_introl eq_refl) eq_refl) as (n & T & al & Hn & Hr & He & Hm).
+      exists (2 + n + 3)%nat, (Br F_p_eems2_command [Leaf nm; Br F_p_arguments [Leaf lp; T; Leaf rp]]),
+        {| pc_result := None; pc_cmd := xc_name c; pc_args := al; pc_line := L i |}.
+      split; [|split; [|split]].
+      * cbn [length]. rewrite app_length. cbn [length]. fold tj in Hn. lia.
+      * eapply reaches_trans; [eapply reaches_trans; [|exact Hr]|].
+        -- intros f. unfold nm, lp, lpt. destruct Hs as [-> | ->]; repeat (progress lr); reflexivity.
+        -- intros f. unfold rp, rpt. cbn [ga Nat.eqb].
+           destruct Hs as [-> | ->]; (destruct Hf as [-> | (la & r' & -> & Hla)]; repeat (progress (lr; rewrite ?Hla)); reflexivity).
+      * unfold nm. ev. rewrite He. reflexivity.
+      * cbn [pc_result pc_cmd pc_args]. repeat split. exact Hm.
 Qed.
-Lemma xcommands_ok : forall p, p <> [] -> forallb xcmd_ok p = true -> forall s i T0 st, s = 0%nat \/ s = 3%nat ->
+Lemma prog_head k c2 p' : exists la r, deco k (tkx_program (c2 :: p')) = la :: r /\ t_kind la = KID.
+Proof. unfold tkx_program. cbn [flat_map]. unfold tkx_cmd, tkx_head. destruct (xc_result c2); cbn [app LrComplete.deco]; eexists; eexists; split; reflexivity. Qed.
+Lemma xcommands_ok : forall p, p <> [] -> forallb xcmd_ok p = true -> forall s i T0 st, s = 0%nat \/ s = S_cmd ->
   exists n T cs, (n <= 10 * length (tkx_program p))%nat /\
     reaches ((s, T0) :: st) (deco i (tkx_program p)) ((gc s, T) :: (s, T0) :: st) [] n /\
-    eval fs T = SOk (SCmds cs false) /\ Forall2 xcmd_matches p cs.
+    eval fs T = SOk (SCmds cs (existsb is2 p)) /\ Forall2 xcmd_matches p cs.
 Proof. induction p as [|c p IH]; [congruence|]. intros _ W s i T0 st Hs. cbn [forallb] in W. apply andb_true_iff in W as [W1 W2]. destruct p as [|c2 p'].
   - cbn [tkx_program flat_map]. rewrite app_nil_r.
     destruct (xcommand_ok c W1 s i T0 st [] Hs (or_introl eq_refl)) as (n & T & x & Hn & Hr & He & Hm). rewrite app_nil_r in Hr.
     exists (n + 1)%nat, (Br F_p_commands_command [T]), [x]. split; [lia|]. split; [|split].
     + eapply reaches_trans; [exact Hr|]. intros f. destruct Hs as [-> | ->]; cbn [gc Nat.eqb]; repeat (progress lr); reflexivity.
-    + ev. rewrite He. reflexivity.
+    + ev. rewrite He. cbn [existsb]. rewrite orb_false_r. reflexivity.
     + constructor; [exact Hm | constructor].
   - change (tkx_program (c :: c2 :: p')) with (tkx_cmd c ++ tkx_program (c2 :: p')). rewrite deco_app.
     destruct (xcommand_ok c W1 s i T0 st (deco (length (tkx_cmd c) + i) (tkx_program (c2 :: p'))) Hs) as (n & T & x & Hn & Hr & He & Hm).
-    { right. cbn [tkx_program flat_map tkx_cmd app LrComplete.deco]. eexists. eexists. split; reflexivity. }
-    destruct (IH ltac:(discriminate) W2 3%nat (length (tkx_cmd c) + i)%nat T ((s, T0) :: st) (or_intror eq_refl)) as (n2 & T2 & cs & Hn2 & Hr2 & He2 & Hm2).
+    { right. apply prog_head. }
+    destruct (IH ltac:(discriminate) W2 S_cmd (length (tkx_cmd c) + i)%nat T ((s, T0) :: st) (or_intror eq_refl)) as (n2 & T2 & cs & Hn2 & Hr2 & He2 & Hm2).
     exists (n + n2 + 1)%nat, (Br F_p_commands [T; T2]), (x :: cs). split; [|split; [|split]].
     + rewrite app_length. lia.
     + eapply reaches_trans; [eapply reaches_trans; [exact Hr | exact Hr2]|].
@@ -336,13 +370,13 @@ Proof. induction p as [|c p IH]; [congruence|]. intros _ W s i T0 st Hs. cbn [fo
     + constructor; assumption.
 Qed.
 Theorem xlr_complete p : p <> [] -> forallb xcmd_ok p = true ->
-  exists T pp, lr (deco 0 (tkx_program p)) = Some T /\ eval fs T = SOk (SProg pp) /\ pp_version pp = 3%N /\ Forall2 xcmd_matches p (pp_cmds pp).
+  exists T pp, lr (deco 0 (tkx_program p)) = Some T /\ eval fs T = SOk (SProg pp) /\ pp_version pp = xversion p /\ Forall2 xcmd_matches p (pp_cmds pp).
 Proof. intros Hp W. destruct (xcommands_ok p Hp W 0%nat 0%nat dummy_tree [] (or_introl eq_refl)) as (n & T & cs & Hn & Hr & He & Hm).
-  exists (Br F_p_program [T]), {| pp_cmds := cs; pp_version := 3%N |}. split; [|split; [|split]].
+  exists (Br F_p_program [T]), {| pp_cmds := cs; pp_version := xversion p |}. split; [|split; [|split]].
   - unfold lr. rewrite deco_length.
     replace (S (64 * (4 + length (tkx_program p)))) with (n + (2 + (S (64 * (4 + length (tkx_program p))) - n - 2)))%nat by lia.
     rewrite Hr. cbn [gc Nat.eqb]. repeat (progress lr). reflexivity.
-  - ev. rewrite He. reflexivity.
+  - ev. rewrite He. unfold xversion. destruct (existsb is2 p); reflexivity.
   - reflexivity.
   - exact Hm.
 Qed.
